@@ -22,23 +22,25 @@ import (
 )
 
 type oinfo struct {
-	raw  bool // may be the source's io.EOF
-	read bool // source-side origin
+	raw     bool // may be the source's io.EOF
+	read    bool // source-side origin
+	wrapped bool // reaches here inside a %w wrapper: `!= io.EOF` no longer tells, errors.Is still matches
 }
 type oset map[ssa.CallInstruction]oinfo
 
 func (s oset) addAll(t oset, keepRaw bool) bool {
 	ch := false
 	for k, v := range t {
-		if !keepRaw {
+		if !keepRaw && !v.wrapped {
 			v.raw = false
 		}
 		old, ok := s[k]
 		if !ok {
 			s[k] = v
 			ch = true
-		} else if v.raw && !old.raw {
-			old.raw = true
+		} else if v.raw && !old.raw || v.wrapped && !old.wrapped {
+			old.raw = old.raw || v.raw
+			old.wrapped = old.wrapped || v.wrapped
 			s[k] = old
 			ch = true
 		}
@@ -600,10 +602,62 @@ func (r *efRun) report(kind, key string, pos token.Pos, msg string, o oset, trac
 	}
 }
 
+// wrapOrigins: fmt.Errorf("... %w ...", ..., err): the result carries the origins of the
+// wrapped error(s), marked wrapped.
+func (r *efRun) wrapOrigins(p *PState, call *ssa.Call) (oset, bool) {
+	cal := call.Call.StaticCallee()
+	if cal == nil || cal.Pkg == nil || cal.Pkg.Pkg.Path() != "fmt" || cal.Name() != "Errorf" || len(call.Call.Args) < 2 {
+		return nil, false
+	}
+	if k, ok := call.Call.Args[0].(*ssa.Const); !ok || k.Value == nil || !strings.Contains(k.Value.ExactString(), "%w") {
+		return nil, false
+	}
+	res := oset{}
+	sl, ok := call.Call.Args[1].(*ssa.Slice)
+	if !ok {
+		return res, true
+	}
+	al, ok := sl.X.(*ssa.Alloc)
+	if !ok || al.Referrers() == nil {
+		return res, true
+	}
+	for _, ref := range *al.Referrers() {
+		ia, ok := ref.(*ssa.IndexAddr)
+		if !ok || ia.Referrers() == nil {
+			continue
+		}
+		for _, r2 := range *ia.Referrers() {
+			st, ok := r2.(*ssa.Store)
+			if !ok {
+				continue
+			}
+			v := st.Val
+			if mi, isMI := v.(*ssa.MakeInterface); isMI {
+				v = mi.X
+			}
+			if ci, isCI := v.(*ssa.ChangeInterface); isCI {
+				v = ci.X
+			}
+			if !isErrType(v.Type()) {
+				continue
+			}
+			for site, inf := range r.originsUnderFacts(p, v) {
+				inf.wrapped = true
+				res[site] = inf
+			}
+			p.U.(*efState).consumed[p.Resolve(v)] = true
+		}
+	}
+	return res, true
+}
+
 func (r *efRun) baseOrigins(p *PState, v ssa.Value) (oset, bool) {
 	v = p.Resolve(v)
 	switch x := v.(type) {
 	case *ssa.Call:
+		if o, isWrap := r.wrapOrigins(p, x); isWrap {
+			return o, true
+		}
 		if o, mf := r.e.callOrigins(r.fn, x); o != nil {
 			return o[0], mf
 		}
@@ -794,6 +848,9 @@ func (r *efRun) instr(p *PState, ins ssa.Instruction) bool {
 			s.consumed[p.Resolve(arg)] = true
 		}
 		o, mf := e.callOrigins(r.fn, x)
+		if wo, isWrap := r.wrapOrigins(p, x); isWrap {
+			o, mf = map[int]oset{0: wo}, true
+		}
 		if o == nil {
 			return true
 		}
